@@ -989,8 +989,13 @@ func callBuiltin(caller *frame, callpos token.Pos, fn *ssa.Builtin, args []value
 			}
 			return arg0
 		}
-		// append([]T, ...[]T) []T
-		return append(args[0].([]value), args[1].([]value)...)
+		// append([]T, ...[]T) []T  (struct/array elements are copied, as in Go)
+		src := args[1].([]value)
+		dst := args[0].([]value)
+		for _, el := range src {
+			dst = append(dst, cpv(el))
+		}
+		return dst
 
 	case "copy": // copy([]T, []T) int or copy([]byte, string) int
 		src := args[1]
@@ -998,7 +1003,17 @@ func callBuiltin(caller *frame, callpos token.Pos, fn *ssa.Builtin, args []value
 			params := fn.Type().(*types.Signature).Params()
 			src = conv(params.At(0).Type(), params.At(1).Type(), src)
 		}
-		return copy(args[0].([]value), src.([]value))
+		srcv := src.([]value)
+		dstv := args[0].([]value)
+		n := len(srcv)
+		if len(dstv) < n {
+			n = len(dstv)
+		}
+		tmp := make([]value, n)
+		for i := 0; i < n; i++ {
+			tmp[i] = cpv(srcv[i])
+		}
+		return copy(dstv, tmp)
 
 	case "close": // close(chan T)
 		close(args[0].(chan value))
@@ -1542,4 +1557,25 @@ func fandbits[F floaty](x, y F) F {
 		*(*uint64)(unsafe.Pointer(&x)) &= *(*uint64)(unsafe.Pointer(&y))
 	}
 	return x
+}
+
+
+// cpv copies struct and array values (stopping at pointers, slices, maps and
+// interfaces), i.e. what a Go assignment copies.
+func cpv(v value) value {
+	switch x := v.(type) {
+	case structure:
+		n := make(structure, len(x))
+		for i := range x {
+			n[i] = cpv(x[i])
+		}
+		return n
+	case array:
+		n := make(array, len(x))
+		for i := range x {
+			n[i] = cpv(x[i])
+		}
+		return n
+	}
+	return v
 }
